@@ -709,6 +709,20 @@ std::string shrink_text(const std::string &orig, const std::function<Result(cons
         std::string t;
         while (ls >> t) toks.push_back(t);
       }
+      // token deletion (e.g. individual keys of a "src" line)
+      for (size_t ti = toks.size(); ti-- > 1 && used < budget && toks.size() > 2;) {
+        std::vector<std::string> t2 = toks;
+        t2.erase(t2.begin() + (long)ti);
+        std::string line;
+        for (size_t k = 0; k < t2.size(); k++) line += (k ? " " : "") + t2[k];
+        std::vector<std::string> cand = cur;
+        cand[li] = line;
+        if (fails(join(cand))) {
+          cur = cand;
+          toks = t2;
+          any_tok = true;
+        }
+      }
       for (size_t ti = 1; ti < toks.size() && used < budget; ti++) {
         bool progress = true;
         int guard = 0;
